@@ -5,3 +5,5 @@ mod util;
 mod c04;
 #[cfg(kani)]
 mod c12;
+#[cfg(kani)]
+mod c20;
